@@ -250,7 +250,7 @@ def gen_cases(tier, seed):
         for kind in ("sig", "cat"):
             p = parent_of(kind, w + 1)
             bnd1 = [None] + list(range(-(w + 1), w + 2))
-            inner_idx = [R(a, b, t) for a in bnd1 for b in bnd1 for t in (None, -1)]
+            inner_idx = [R(a, b, t) for a in bnd1 for b in bnd1 for t in (None, -1, 2)]
             for i1 in inner_idx:
                 inner = {"k": "slice", "of": p, "idx": i1}
                 bnd2 = [None] + list(range(-w, w + 1))
